@@ -179,10 +179,10 @@ class Translate(BaseTranslateFilter, TranslatableFilter):
                 message=(left.value,),
             )
 
-        if isinstance(_filter.args[0], PositionalArgument):
-            _context: Expression | None = _filter.args[0].value
-        else:
-            _context = None
+        # The message context is the first positional argument, wherever it
+        # appears among keyword arguments.
+        positional = _positional_arguments(_filter)
+        _context: Expression | None = positional[0] if positional else None
 
         plural: Expression | None = None
         for arg in _filter.args:
@@ -306,10 +306,12 @@ class NGetText(BaseTranslateFilter, TranslatableFilter):
         _filter: Filter,
         lineno: int,
     ) -> MessageText | None:
-        if len(_filter.args) < 1:
+        positional = _positional_arguments(_filter)
+
+        if len(positional) < 1:
             return None
 
-        plural = _filter.args[0].value
+        plural = positional[0]
 
         if not isinstance(left, StringLiteral) or not isinstance(plural, StringLiteral):
             return None
@@ -359,10 +361,12 @@ class PGetText(BaseTranslateFilter, TranslatableFilter):
     def message(  # noqa: D102
         self, left: Expression, _filter: Filter, lineno: int
     ) -> MessageText | None:
-        if len(_filter.args) < 1:
+        positional = _positional_arguments(_filter)
+
+        if len(positional) < 1:
             return None
 
-        ctx = _filter.args[0].value
+        ctx = positional[0]
 
         if not isinstance(left, StringLiteral) or not isinstance(ctx, StringLiteral):
             return None
@@ -429,11 +433,13 @@ class NPGetText(BaseTranslateFilter, TranslatableFilter):
         _filter: Filter,
         lineno: int,
     ) -> MessageText | None:
-        if len(_filter.args) < 2:  # noqa: PLR2004
+        positional = _positional_arguments(_filter)
+
+        if len(positional) < 2:  # noqa: PLR2004
             return None
 
-        ctx = _filter.args[0].value
-        plural = _filter.args[1].value
+        ctx = positional[0]
+        plural = positional[1]
 
         if (
             not isinstance(left, StringLiteral)
@@ -447,6 +453,13 @@ class NPGetText(BaseTranslateFilter, TranslatableFilter):
             funcname=self.name,
             message=((ctx.value, "c"), left.value, plural.value),
         )
+
+
+def _positional_arguments(_filter: Filter) -> list[Expression]:
+    """Return positional argument expressions, as they are bound when rendering."""
+    return [
+        arg.value for arg in _filter.args if isinstance(arg, PositionalArgument)
+    ]
 
 
 def _count(val: Any) -> int | None:
